@@ -155,8 +155,12 @@ def no_valid_answer(m, a):
 def arg_class(m, a):
     if m in ('random', 'randoms'):
         mn, mx = (a[0], a[1]) if m == 'random' else (a[1], a[2])
-        narrow = (mx - mn) < 2.0 ** -23 * max(abs(mn), abs(mx))
-        return 'interval narrower than 2^-23 of its magnitude' if narrow else 'ordinary interval'
+        ratio = (mx - mn) / max(abs(mn), abs(mx), 2.0 ** -1000)
+        # below 2^-24 the exact result for the largest uniform lies within half an ulp of max (no formula can keep it
+        # below max without an explicit clamp); between 2^-24 and 2^-22 it depends on the formula's rounding steps
+        if ratio < 2.0 ** -24: return 'interval narrower than 2^-24 of its magnitude'
+        if ratio < 2.0 ** -22: return 'interval between 2^-24 and 2^-22 of its magnitude'
+        return 'ordinary interval'
     if m in ('randint', 'randints'):
         lo, hi = (a[0], a[1]) if m == 'randint' else (a[1], a[2])
         return 'a=b' if lo == hi else 'a<b'
@@ -214,7 +218,7 @@ def seq_for(w): return ['x', 'y', 'z'][:len(w)]
 def boundary_specs():
     """Everything that is run on every boundary state (quick and thorough)."""
     out = [('random', a) for a in RANDOM_ARGS]
-    out += [('random', [-P20, -P20 + E20]), ('random', [1000, 1000.5]), ('random', [-0.5, 0.25])]
+    out += [('random', [-P20, -P20 + E20]), ('random', [1000, 1000.5]), ('random', [-0.5, 0.25]), ('random', [10.1, 10.1 + E20])]
     out += [('randint', a) for a in RANDINT_ARGS] + [('randint', [-2 ** 20, 2 ** 20])]
     out += [('choice', [s]) for s in SEQS]
     out += [('choice', [seq_for(w), w]) for w in WEIGHTS] + [('choice', [['x', 'y', 'z'], [0, 1, 0]]), ('choice', [['x', 'y'], [.5, .5]])]
@@ -222,7 +226,7 @@ def boundary_specs():
     out += [('choicew', [s]) for s in SEQS[:3]]
     out += [('shuffle', [s]) for s in SHUFFLES]
     out += [('gauss', [])]
-    out += [('gausses', [3]), ('randoms', [3, -1, 1]), ('randoms', [2, 0, 1]), ('randoms', [2, P20 - E20, P20]), ('randoms', [0, 0, 1]),
+    out += [('gausses', [3]), ('randoms', [3, -1, 1]), ('randoms', [2, 0, 1]), ('randoms', [2, P20 - E20, P20]), ('randoms', [2, 10.1, 10.1 + E20]), ('randoms', [0, 0, 1]),
             ('randints', [3, -3, 3]), ('randints', [2, 0, 2 ** 20]), ('randints', [0, 0, 1]), ('gausses', [0])]
     # no value can honour the contract: an exception is the accepted outcome
     out += [('choice', [[]]), ('choice', [['x', 'y'], [0, 0]]), ('choicew', [['x', 'y'], [0, 0]])]
@@ -534,7 +538,7 @@ class C05(Check):
             '(start by LCG jump-ahead, every value consumed from the real object, blockwise and segmentwise closure check; states = '
             'transitions = 2^30 when all segments complete; HIST figures are in counters.hist_*); boundary cases = 2 sides x 32 blocks '
             'of 2^11 states: every one of the 2^16 smallest and 2^16 largest states is placed at every draw position of every (method, '
-            'arguments) of the alphabet (random x 9 bound pairs, randint x 5, choice/choicew x sequences len 0..7 x weights incl. zeros, '
+            'arguments) of the alphabet (random x 10 bound pairs, randint x 5, choice/choicew x sequences len 0..7 x weights incl. zeros, '
             'shuffle n in {0,1,2,3,5}, gauss pair, randoms/randints/gausses) on a fresh real object; thorough adds one full-orbit pass '
             'per (method, arguments, alignment), cheapest first, until the time budget is used (completed passes listed in evidence). '
             '(b) HIST: every history of length <=4 (thorough <=5 over 39 letters, <=6 over 11 letters) over {A=CobaRandom(1), '
